@@ -592,6 +592,36 @@ def array_attrs(p):
     return out
 
 
+IMMUTABLE = (str, bytes, int, float, complex, bool, type(None), np.generic)
+
+
+def mutables(o, path, out, depth=0):
+    """id -> path of every mutable object reachable from o through attributes, dict values, list items"""
+    if isinstance(o, IMMUTABLE) or depth > 6 or id(o) in out:
+        return
+    if isinstance(o, tuple):
+        for i, x in enumerate(o):
+            mutables(x, '%s[%d]' % (path, i), out, depth + 1)
+        return
+    out[id(o)] = path
+    if isinstance(o, dict):
+        for k, v in o.items():
+            mutables(v, '%s[%r]' % (path, k), out, depth + 1)
+    elif isinstance(o, (list, set)):
+        for i, x in enumerate(o):
+            mutables(x, '%s[%d]' % (path, i), out, depth + 1)
+    if hasattr(o, '__dict__'):
+        for k, v in vars(o).items():
+            mutables(v, ('%s.%s' % (path, k)).lstrip('.'), out, depth + 1)
+
+
+def shared_mutables(p, q):
+    a, b = {}, {}
+    mutables(p, '', a)
+    mutables(q, '', b)
+    return sorted(b[i] for i in set(a) & set(b))
+
+
 def snapshot(p):
     return {k: np.array(v.view(np.ndarray), copy=True) for k, v in array_attrs(p).items()}
 
@@ -624,6 +654,11 @@ def copy_predicates(s, r):
                 bad.append(('c17-deepcopy-shared', 'copy.%s shares memory with original.%s' % (kb, ka)))
     if q._intermediates is p._intermediates or q.basis is p.basis:
         bad.append(('c17-deepcopy-shared', 'deep copy shares the intermediates dict or the basis object'))
+    for path in shared_mutables(p, q):
+        if path.endswith('basis.labels'):
+            bad.append(('c17-deepcopy-shares-basis-labels', 'copy.deepcopy(p).%s is p.%s (a mutable list)' % (path, path)))
+        else:
+            bad.append(('c17-deepcopy-shared', 'deep copy and original share the mutable object %s' % path))
     before = snapshot(p)
     for k, v in array_attrs(q).items():       # mutate every array of the copy in place
         w = v.view(np.ndarray)
